@@ -262,6 +262,13 @@ func c05r5(c *an.Ctx) {
 		{"drpcmanager", "(*Manager).acquireSemaphore"}, {"drpcmanager", "(*Manager).waitForPreviousStream"},
 		{"drpcmanager", "(*Manager).newStream"}, {"drpcmanager", "(*Manager).NewClientStream"}, {"drpcmanager", "(*Manager).NewServerStream"},
 	} {
+		if x[1] == "(*Manager).waitForPreviousStream" || x[1] == "(*Stream).checkRecvFlush" {
+			// single-caller helpers: part of the API while they exist
+			if o := a.objOpt(x[0], x[1]); o != nil {
+				api[o] = true
+			}
+			continue
+		}
 		api[a.obj(x[0], x[1])] = true
 	}
 	nCalls := 0
